@@ -304,7 +304,27 @@ func TestC15Differential(t *testing.T) {
 		}
 		st.Enumerated(int64(len(vals)), int64(len(vals)))
 	}
-	st.Exhaustive("every element value of the 8- and 16-bit dual codecs")
+	// Every dual codec once with row counts beyond and off the chunk sizes codecs may work in.
+	for ki, k := range kinds {
+		for _, rows := range []int{4097, 8193, 10000} {
+			var vals []ref.Val
+			for i := 0; i < rows; i++ {
+				vals = append(vals, k.Value.Example(1000*ki+i%991+1))
+			}
+			failed := ""
+			c15case(func(f string, a ...any) {
+				if failed == "" {
+					failed = fmt.Sprintf(f, a...)
+				}
+			}, tr, k, vals, []byte{9, 8, 7, 6, 5}, nil, fmt.Sprintf("rows%d", rows))
+			if failed != "" {
+				p := st.Violate("purego-differential", failed, []byte(k.Key()))
+				t.Fatalf("C15 %s (replay %s)", failed, p)
+			}
+			st.Enumerated(1, 1)
+		}
+	}
+	st.Exhaustive("every element value of the 8- and 16-bit dual codecs; every dual codec at 4097, 8193 and 10000 rows")
 	rapid.Check(t, func(rt *rapid.T) {
 		k := kinds[rapid.IntRange(0, len(kinds)-1).Draw(rt, "kind")]
 		rows := rapid.OneOf(rapid.IntRange(0, 5), rapid.IntRange(0, 40), rapid.IntRange(0, 40), rapid.IntRange(0, 40), rapid.SampledFrom([]int{8, 16, 24, 32, 40, 64, 128}),
